@@ -2,6 +2,7 @@ package main
 
 import (
 	"context"
+	"fmt"
 	"sync"
 	"sync/atomic"
 	"time"
@@ -27,7 +28,11 @@ type rQueue struct {
 	arrive    chan rArrival
 	gated     atomic.Bool
 	pushGated atomic.Bool
+	failPops  atomic.Int32 // the next so many Pop calls fail
+	popFails  atomic.Int32
 }
+
+var errTransient = fmt.Errorf("transient queue fault")
 
 func (q *rQueue) Push(j quartz.ScheduledJob) error {
 	if q.pushGated.Load() {
@@ -50,7 +55,15 @@ func (q *rQueue) Head() (quartz.ScheduledJob, error) {
 	q.gate("HeadDone")
 	return j, e
 }
-func (q *rQueue) Pop() (quartz.ScheduledJob, error) { q.gate("Pop"); return q.JobQueue.Pop() }
+func (q *rQueue) Pop() (quartz.ScheduledJob, error) {
+	q.gate("Pop")
+	if q.failPops.Load() > 0 {
+		q.failPops.Add(-1)
+		q.popFails.Add(1)
+		return nil, errTransient
+	}
+	return q.JobQueue.Pop()
+}
 
 type restartResult struct {
 	Kind       string   `json:"kind"`
@@ -317,6 +330,222 @@ func runSlowPush(trial int, sit string) (res restartResult) {
 	return
 }
 
+// finish a scenario: open the gates, serve late arrivals, stop, wait
+func (q *rQueue) shutdown(s quartz.Scheduler) {
+	q.gated.Store(false)
+	q.pushGated.Store(false)
+	stop := make(chan struct{})
+	go func() {
+		for {
+			select {
+			case a := <-q.arrive:
+				close(a.rel)
+			case <-stop:
+				return
+			}
+		}
+	}()
+	done := make(chan struct{})
+	go func() {
+		s.Stop()
+		ctx, c := context.WithTimeout(context.Background(), 5*time.Second)
+		s.Wait(ctx)
+		c()
+		close(done)
+	}()
+	select {
+	case <-done:
+	case <-time.After(8 * time.Second):
+	}
+	close(stop)
+}
+
+// C05 (x C15): one transient Pop failure sends the loop into its RetryInterval wait (8 s here); a job that
+// becomes due meanwhile must still be dispatched promptly: the wake-up makes the loop recompute.
+func runPopFault(trial int) (res restartResult) {
+	res = restartResult{Kind: "restart", Trial: trial, Variant: "popfault", DelayMs: -1}
+	q := &rQueue{JobQueue: quartz.NewJobQueue(), arrive: make(chan rArrival)}
+	s, _ := quartz.NewStdScheduler(quartz.WithQueue(q, &sync.Mutex{}), quartz.WithOutdatedThreshold(time.Hour), quartz.WithRetryInterval(8*time.Second))
+	defer q.shutdown(s)
+	var ran atomic.Int32
+	var tExec atomic.Int64
+	hour := time.Hour
+	q.failPops.Store(1)
+	s.ScheduleJob(detail("a", func(context.Context) error { return nil }), relTrigger(-time.Millisecond, 2*hour))
+	s.Start(context.Background())
+	if !pollUntil(5*time.Second, func() bool { return q.popFails.Load() >= 1 }) {
+		res.Error = "the planned Pop failure did not happen"
+		return
+	}
+	time.Sleep(30 * time.Millisecond) // the loop is in its retry wait
+	res.Trace = append(res.Trace, "Pop failed once; loop waits RetryInterval = 8 s")
+	t0 := time.Now()
+	s.ScheduleJob(detail("x", func(context.Context) error {
+		ran.Add(1)
+		tExec.CompareAndSwap(0, int64(time.Since(t0)))
+		return nil
+	}), relTrigger(-time.Millisecond, 3*hour))
+	pollUntil(5*time.Second, func() bool { return ran.Load() > 0 })
+	res.Executed = ran.Load()
+	if t := tExec.Load(); t > 0 {
+		res.DelayMs = t / 1e6
+	}
+	res.IsStarted = s.IsStarted()
+	return
+}
+
+type parkTrigger struct {
+	scriptTrigger
+	park    chan struct{} // NextFireTime waits here from its second call on (the call made by the loop)
+	entered chan struct{}
+}
+
+func (t *parkTrigger) NextFireTime(prev int64) (int64, error) {
+	t.mu.Lock()
+	n := t.calls
+	t.mu.Unlock()
+	if n >= 1 {
+		select {
+		case t.entered <- struct{}{}:
+		default:
+		}
+		<-t.park
+	}
+	return t.scriptTrigger.NextFireTime(prev)
+}
+
+// C05: ScheduleJob(Replace) of the job that is being dispatched (its trigger is slow, so the loop is between
+// Pop and its re-Push): the replacement, due at once, must be dispatched
+func runReplaceGap(trial int) (res restartResult) {
+	res = restartResult{Kind: "restart", Trial: trial, Variant: "replacegap", DelayMs: -1}
+	q := &rQueue{JobQueue: quartz.NewJobQueue(), arrive: make(chan rArrival)}
+	s, _ := quartz.NewStdScheduler(quartz.WithQueue(q, &sync.Mutex{}), quartz.WithOutdatedThreshold(time.Hour))
+	defer q.shutdown(s)
+	hour := time.Hour
+	pt := &parkTrigger{park: make(chan struct{}), entered: make(chan struct{}, 1)}
+	pt.relative = true
+	pt.next = []int64{int64(-time.Millisecond), int64(2 * hour), int64(3 * hour)}
+	opts := func() *quartz.JobDetailOptions { return &quartz.JobDetailOptions{Replace: true, RetryInterval: time.Second} }
+	var ran atomic.Int32
+	var tExec atomic.Int64
+	s.ScheduleJob(quartz.NewJobDetailWithOptions(&funcJob{"k-old", func(context.Context) error { return nil }}, quartz.NewJobKey("k"), opts()), pt)
+	s.Start(context.Background())
+	select {
+	case <-pt.entered: // the loop has popped k and is asking its trigger for the next fire time
+	case <-time.After(5 * time.Second):
+		res.Error = "the loop did not fetch the job"
+		return
+	}
+	res.Trace = append(res.Trace, "loop between Pop and Push of k")
+	t0 := time.Now()
+	apiDone := make(chan error, 1)
+	go func() {
+		apiDone <- s.ScheduleJob(quartz.NewJobDetailWithOptions(&funcJob{"k-new", func(context.Context) error {
+			ran.Add(1)
+			tExec.CompareAndSwap(0, int64(time.Since(t0)))
+			return nil
+		}}, quartz.NewJobKey("k"), opts()), relTrigger(-time.Millisecond, 5*hour))
+	}()
+	// give the call every chance to land in the gap, then let the loop finish its fetch
+	select {
+	case err := <-apiDone:
+		apiDone <- err
+		res.Trace = append(res.Trace, "ScheduleJob(Replace) returned while the loop was in the gap")
+	case <-time.After(80 * time.Millisecond):
+		res.Trace = append(res.Trace, "ScheduleJob(Replace) waits for the queue lock")
+	}
+	close(pt.park)
+	select {
+	case err := <-apiDone:
+		if err != nil {
+			res.Error = "ScheduleJob(Replace) failed: " + err.Error()
+			return
+		}
+	case <-time.After(5 * time.Second):
+		res.Error = "ScheduleJob(Replace) did not return"
+		return
+	}
+	pollUntil(5*time.Second, func() bool { return ran.Load() > 0 })
+	time.Sleep(20 * time.Millisecond)
+	res.Executed = ran.Load()
+	if t := tExec.Load(); t > 0 {
+		res.DelayMs = t / 1e6
+	}
+	res.IsStarted = s.IsStarted()
+	return
+}
+
+// C05: a ScheduleJob whose (slow) Push overlaps Start: when the push lands the loop is already parked on
+// the empty queue; the job, due at once, must be dispatched
+func runStartOverlap(trial int) (res restartResult) {
+	res = restartResult{Kind: "restart", Trial: trial, Variant: "startoverlap", DelayMs: -1}
+	q := &rQueue{JobQueue: quartz.NewJobQueue(), arrive: make(chan rArrival)}
+	q.gated.Store(true)
+	q.pushGated.Store(true)
+	s, _ := quartz.NewStdScheduler(quartz.WithQueue(q, &sync.Mutex{}), quartz.WithOutdatedThreshold(time.Hour))
+	defer q.shutdown(s)
+	var ran atomic.Int32
+	var tExec atomic.Int64
+	t0 := time.Now()
+	apiDone := make(chan error, 1)
+	go func() {
+		apiDone <- s.ScheduleJob(detail("x", func(context.Context) error {
+			ran.Add(1)
+			tExec.CompareAndSwap(0, int64(time.Since(t0)))
+			return nil
+		}), relTrigger(-time.Millisecond, 3*time.Hour))
+	}()
+	var push rArrival
+	select {
+	case push = <-q.arrive:
+	case <-time.After(5 * time.Second):
+		res.Error = "ScheduleJob did not reach its Push"
+		return
+	}
+	res.Trace = append(res.Trace, push.name+"(held)")
+	s.Start(context.Background())
+	// the loop looks at the (still empty) queue and parks
+	for {
+		select {
+		case a := <-q.arrive:
+			res.Trace = append(res.Trace, "loop:"+a.name)
+			close(a.rel)
+			continue
+		case <-time.After(150 * time.Millisecond):
+		}
+		break
+	}
+	res.Trace = append(res.Trace, "release Push")
+	q.pushGated.Store(false)
+	t0 = time.Now()
+	close(push.rel)
+	select {
+	case err := <-apiDone:
+		if err != nil {
+			res.Error = "ScheduleJob failed: " + err.Error()
+			return
+		}
+	case <-time.After(5 * time.Second):
+		res.Error = "ScheduleJob did not return"
+		return
+	}
+	end := time.Now().Add(5 * time.Second)
+	for time.Now().Before(end) && ran.Load() == 0 {
+		select {
+		case a := <-q.arrive:
+			close(a.rel)
+		case <-time.After(5 * time.Millisecond):
+		}
+	}
+	time.Sleep(20 * time.Millisecond)
+	res.Executed = ran.Load()
+	if t := tExec.Load(); t > 0 {
+		res.DelayMs = t / 1e6
+	}
+	res.IsStarted = s.IsStarted()
+	return
+}
+
 // C10 (x C12): restart of a scheduler with a worker pool while a worker of the stopped run is still busy.
 // In the new run one job occupies every new worker and one more is due (the new loop is handing it
 // over); then the old worker's job returns and that worker is back in its select with its cancelled
@@ -400,13 +629,22 @@ func cmdRestart() {
 			}
 			ch := make(chan restartResult, 1)
 			go func() {
-				switch {
-				case i%6 == 4:
+				switch i % 9 {
+				case 4:
 					variant = "slowpush-paused"
 					ch <- runSlowPush(i, "paused")
-				case i%6 == 5:
+				case 5:
 					variant = "slowpush-far"
 					ch <- runSlowPush(i, "far")
+				case 6:
+					variant = "popfault"
+					ch <- runPopFault(i)
+				case 7:
+					variant = "replacegap"
+					ch <- runReplaceGap(i)
+				case 8:
+					variant = "startoverlap"
+					ch <- runStartOverlap(i)
 				default:
 					ch <- runRestart(i, variant)
 				}
